@@ -35,6 +35,14 @@ def history_case(case):
                                         'kp_reuse': ph.get('kp_reuse', False)}],
                                accounts=[{'name': 'acc1', 'contacts': ph['contacts'], 'key_type': ph.get('acc_key', 'ecdsa_p256')}])
             open(d + '/acmed.toml', 'w').write(C.toml_dumps(cfg))
+            if pi > 0 and ph.get('corrupt_key'):
+                # the stored key became unusable (cut in half): with kp_reuse the daemon must generate, use AND store a new one
+                kp = d + '/certs/c0.pk.pem'
+                try:
+                    data = open(kp, 'rb').read()
+                    open(kp, 'wb').write(data[:len(data) // 2])
+                except OSError:
+                    pass
             if pi > 0:
                 # make a renewal due at start-up: without its certificate file the daemon requests one at once
                 # (the key file of the previous run stays in place and is overwritten)
@@ -185,7 +193,10 @@ def run(tier):
                 acc_key = r.choice(['ecdsa_p256', 'ecdsa_p384', 'ed25519'])
             phases.append({'key_type': r.choice(kts) if p else r.choice(['rsa2048', 'ecdsa_p521', 'ecdsa_p256']),
                            'chain_lens': [r.randint(1, 4) for _ in range(r.randint(2, 4))],
-                           'contacts': list(contacts), 'acc_key': acc_key, 'kp_reuse': False})
+                           'contacts': list(contacts), 'acc_key': acc_key, 'kp_reuse': bool(p and i % 3 == 1),
+                           'corrupt_key': bool(p and i % 3 == 1 and i % 2)})
+            if phases[-1]['kp_reuse'] and len(phases) > 1:
+                phases[-1]['key_type'] = phases[-2]['key_type']      # reuse only makes sense with the same key type
         cases.append({'i': i, 'phases': phases})
     results = C.parallel(cases, history_case)
     for res in results:
